@@ -456,3 +456,66 @@ theorem avo_alloc_valid (tbl : List RegRow) (is : List AInstr) (A : List (Nat ×
     simp [a, b, c]
 
 end Avo.Alloc
+
+namespace Avo.Alloc
+open Avo.Reg
+
+/-- Every register handed out by the loop comes from a candidate list. -/
+theorem allocLoop_vals (Q : Nat → Prop) : ∀ (fuel : Nat) (st : AState) (al : List (Nat × Nat)),
+    allocLoop fuel st = .ok al → (∀ e ∈ st.allocation, Q e.2) → (∀ e ∈ st.possible, ∀ p ∈ e.2, Q p) → ∀ e ∈ al, Q e.2
+  | 0, st, al, h, _, _ => by simp [allocLoop] at h
+  | fuel + 1, st, al, h, ha, hp => by
+    simp only [allocLoop] at h
+    cases hu : updateEdges st.allocation st.edges st.possible [] with
+    | error e => simp [hu] at h
+    | ok pr =>
+      rcases pr with ⟨poss, rem⟩
+      simp only [hu] at h
+      obtain ⟨_, hm, _, _⟩ := updateEdges_spec st.allocation st.edges st.possible [] poss rem hu
+      have hq : ∀ e ∈ poss, ∀ p ∈ e.2, Q p := by
+        intro e he p hpe
+        obtain ⟨l, hl, hsub⟩ := hm e.1 e.2 he
+        exact hp (e.1, l) hl p (hsub p hpe)
+      cases hmr : mostRestricted poss with
+      | none => simp only [hmr] at h; injection h with h; subst h; exact ha
+      | some m =>
+        rcases m with ⟨v, ps⟩
+        simp only [hmr] at h
+        cases ps with
+        | nil => simp at h
+        | cons p ps' =>
+          simp only at h
+          apply allocLoop_vals Q fuel _ al h
+          · intro e he
+            rcases List.mem_append.mp he with he | he
+            · exact ha e he
+            · have : e = (v, p) := by simpa using he
+              subst this; exact hq _ (mostRestricted_mem poss _ hmr) p List.mem_cons_self
+          · intro e he; exact hq e (List.mem_filter.mp he).1
+
+theorem allocKind_vals (tbl : List RegRow) (is : List AInstr) (kind : Nat) (al : List (Nat × Nat))
+    (h : allocKind tbl is kind = .ok al) : ∀ e ∈ al, e.2 ∈ candidates tbl kind := by
+  unfold allocKind at h
+  simp only at h
+  split at h
+  · cases h
+  · have hregs : ∀ r ∈ (is.flatMap (·.regs)).filter (fun r => idKind r.id == kind), idKind r.id = kind := by
+      intro r hr; simpa using (List.mem_filter.mp hr).2
+    obtain ⟨ok0, _⟩ := foldl_addVirt_regs (candidates tbl kind) kind _ [] hregs (by intro e he; cases he)
+    obtain ⟨ok1, _, _⟩ := foldl_addVirt_edges (candidates tbl kind) kind (kindEdges is kind) _
+      (fun e he => kindEdges_kinds is kind e he) ok0
+    exact allocLoop_vals (fun p => p ∈ candidates tbl kind) _ _ al h (by intro e he; cases he)
+      (fun e he p hp => ((ok1 e he).2.2 p hp).1)
+
+/-- Every target of a successful allocation is a candidate register of some kind. -/
+theorem allocate_targets (tbl : List RegRow) (is : List AInstr) (A : List (Nat × Nat))
+    (h : allocate tbl is = .ok A) : ∀ e ∈ A, ∃ k, e.2 ∈ candidates tbl k := by
+  unfold allocate at h
+  obtain ⟨hA, hks⟩ := allocate_fold tbl is (kindsOf is) [] A h
+  simp only [List.nil_append] at hA
+  intro e he
+  rw [hA] at he
+  obtain ⟨k, hk, hek⟩ := List.mem_flatMap.mp he
+  exact ⟨k, allocKind_vals tbl is k _ (hks k hk) e hek⟩
+
+end Avo.Alloc
